@@ -22,8 +22,8 @@ FILES = {
     "models/BaseElectionModel.py": ["C01", "C02", "C11"],
     "models/ConformalElectionModel.py": ["C05", "C03", "C04", "C14", "C20", "C10"],
     "models/NonparametricElectionModel.py": ["C04", "C02", "C03", "C14"],
-    "models/GaussianElectionModel.py": ["C15", "C03", "C13", "C14"],
-    "distributions/GaussianModel.py": ["C15", "C13"],
+    "models/GaussianElectionModel.py": ["C15", "C03", "C13", "C14", "C18"],
+    "distributions/GaussianModel.py": ["C15", "C13", "C18"],
     "models/BootstrapElectionModel.py": ["C06", "C07", "C08", "C02", "C16", "C17", "C11", "C10"],
     "handlers/data/Featurizer.py": ["C16", "C05"],
     "handlers/data/Estimandizer.py": ["C09", "C05", "C01"],
